@@ -40,6 +40,7 @@ var genFiles = []genFile{
 	{Name: "ChainProofs", Imports: []string{"ChainTypes", "Command"}},
 	{Name: "PolicyAcc"},
 	{Name: "PolicyMatch", Prelude: policyMatchPrelude},
+	{Name: "ChainProofsShell", Imports: []string{"ChainTypes"}, Prelude: "variable (ext_Covers : Bytes → Bytes → GoM Bool)\n"},
 	{Name: "ChainShell", Imports: []string{"ChainTypes"}, Prelude: chainShellPrelude},
 	{Name: "ChainLoad", Imports: []string{"ChainTypes"}, Prelude: "variable {L : Type} (ext_GetDelegation : L → C → GoM (DlgTok D S))\n"},
 	{Name: "ChainArgs", Imports: []string{"ChainTypes", "PolicyMatch"}, Prelude: chainArgsPrelude},
@@ -70,6 +71,8 @@ var targets = []target{
 	{Dir: "token/invocation", Recv: "Token", Name: "verifyTimeBound", Lean: "Inv_verifyTimeBound", File: "ChainTime", Uses: []string{"now"}},
 	{Dir: "token/invocation", Recv: "Token", Name: "executionAllowed", Lean: "Inv_executionAllowed", File: "ChainAllowed",
 		Uses: []string{"now", "ext_GetDelegation", "ext_matchStatement", "ext_toIPLD"}},
+	{Dir: "token/invocation", Recv: "Token", Name: "verifyProofs", Lean: "Inv_verifyProofs_shell", File: "ChainProofsShell", Shell: true,
+		Uses: []string{"ext_Covers"}},
 	{Dir: "token/invocation", Recv: "Token", Name: "executionAllowed", Lean: "Inv_executionAllowed_shell", File: "ChainShell", Shell: true,
 		Uses: []string{"ext_loadProofs", "ext_verifyProofs", "ext_verifyTimeBound", "ext_verifyArgs"}},
 }
@@ -215,6 +218,7 @@ var externMethods = map[string]libCall{
 
 // shellMethods: the parameters a shell target takes for the methods it calls.
 var shellMethods = map[string]libCall{
+	"command.Command.Covers":           {"(ext_Covers $r $1)", boolTy, []string{"ext_Covers"}},
 	"invocation.Token.loadProofs":      {"(ext_loadProofs $r $1)", ty{"(List (DlgTok D S))", "[]delegation.Token"}, []string{"ext_loadProofs"}},
 	"invocation.Token.verifyProofs":    {"(ext_verifyProofs $r $1)", ty{"Unit", "unit"}, []string{"ext_verifyProofs"}},
 	"invocation.Token.verifyTimeBound": {"(ext_verifyTimeBound $r $1)", ty{"Unit", "unit"}, []string{"ext_verifyTimeBound"}},
@@ -234,6 +238,7 @@ var useTypes = map[string]string{
 	"ext_loadProofs":      "InvTok D C → L → GoM (List (DlgTok D S))",
 	"ext_toIPLD":          "A → GoM N",
 	"ext_GetDelegation":   "L → C → GoM (DlgTok D S)",
+	"ext_Covers":          "Bytes → Bytes → GoM Bool",
 	"ext_verifyProofs":    "InvTok D C → List (DlgTok D S) → GoM Unit",
 	"ext_verifyTimeBound": "InvTok D C → List (DlgTok D S) → GoM Unit",
 	"ext_verifyArgs":      "InvTok D C → List (DlgTok D S) → A → GoM Unit",
